@@ -9,6 +9,7 @@ Deliberately coarse and name-based; it turns into events only what is syntactica
                                                                   -> lock m rest   (REPORT)
   <stack>.close()  /  unlock_storage_fn()                         -> ev unlock
   <x>.discover / get_all / get_multi / get_filtered / has_uid / get_meta / sync / verify (…)   -> ev read
+  <collection-named expr>.tag                                     -> ev read   (get_meta behind a property)
   <x>.create_collection / upload / delete / move / set_meta (…)                             -> ev write
   return / raise / if / for / while / try / with                  -> ret / raise / alt / star / try_ / seq
   calls of functions and methods defined in radicale/app/*.py     -> fn <their body>   (inlined, depth-limited)
@@ -102,6 +103,10 @@ class Tr:
             if body != ("skip",):
                 parts.append(("star", body))
             return self.seq(parts)
+        if isinstance(e, ast.Attribute) and e.attr == "tag" and self.is_collection_expr(e.value):
+            # `<collection>.tag` goes through get_meta(): it reads .Radicale.props unless the per-request cache
+            # is filled *and* nobody in the process holds the lock in write mode
+            return self.seq([self.expr(e.value, scope, depth, stack_names), ("ev", "read")])
         if isinstance(e, ast.Lambda):
             return ("skip",)
         if isinstance(e, (ast.Yield, ast.Await)):
@@ -113,6 +118,15 @@ class Tr:
             if isinstance(child, ast.expr):
                 parts.append(self.expr(child, scope, depth, stack_names))
         return self.seq(parts)
+
+    COLLECTION_NAMES = {"collection", "to_collection", "parent_item", "item", "principal", "new_coll"}
+
+    def is_collection_expr(self, v):
+        if isinstance(v, ast.Name):
+            return v.id in self.COLLECTION_NAMES
+        if isinstance(v, ast.Attribute):
+            return v.attr == "collection"
+        return False
 
     def call(self, e, scope, depth, stack_names):
         f = e.func
